@@ -39,7 +39,7 @@ THEOREMS = [
 LEAN_MODULES = ["PorepyVerif.C22.Props"]
 AUDIT = "PorepyVerif/C22/Audit.lean"
 DRIVER = "PorepyVerif/C22/Driver.lean"
-N = {"quick": 360, "thorough": 6000}
+N = {"quick": 360, "thorough": 15000}
 GEOM_TOL = 1e-12
 RULE = ("one call per case; grids: CartGrid 1-d/2-d/3-d, StructuredTriangleGrid, StructuredTetrahedralGrid, fracture-split Cartesian 2-d/3-d "
         "(duplicated faces and nodes), sizes 1-12 cells per axis (2-d) / 1-4 (3-d), optionally mapped by a dyadic affine map (shear/stretch) and, "
@@ -651,7 +651,14 @@ def _oracle_pstruct(P, g, case):
     if "coarse" in case:
         coarse = list(case["coarse"])
         if any(c < 1 or c > f for c, f in zip(coarse, fine)):
-            return None  # outside the precondition; behaviour compared with the model only
+            # outside the precondition; behaviour compared with the model only -- except that the missing 1-d branch shows here too
+            try:
+                P.partition_structured(g, coarse_dims=np.array(coarse))
+            except UnboundLocalError as e:
+                return _fail(f"partition_structured(CartGrid({fine}), coarse={coarse}) raised UnboundLocalError: {e}", f"partition_structured-{nd}d-UnboundLocalError")
+            except Exception:
+                pass
+            return None
     else:
         n = case["num_part"]
         coarse = _ints(P.determine_coarse_dimensions(n, np.array(fine)))
